@@ -1,4 +1,5 @@
 (* The three regexes of ParsedException on the lines the interpreter writes. *)
+From Coq Require Import DecimalN.
 From Boltons Require Import Lib.Prelude Lib.C16_Text Spec.C16_Spec Model.C16_Model Proofs.C16_Text.
 Open Scope N_scope.
 
@@ -253,6 +254,100 @@ Section Regex.
     replace (L_file ++ p ++ L_qline ++ n ++ L_in ++ g' ++ [d])
       with ((L_file ++ p ++ L_qline ++ n ++ L_in ++ g') ++ [d]) by (rewrite <- !app_assoc; reflexivity).
     apply rstrip_unit. exact Hd.
+  Qed.
+
+  (* ---- _repeat_re and the folding line ------------------------------------------------------------ *)
+  Lemma repeat_re_not s : startswith L_prevline s = false -> repeat_re C s = None.
+  Proof. intro H. unfold repeat_re. change M_prevline with L_prevline. rewrite (drop_prefix_startswith _ _ H). reflexivity. Qed.
+
+  Definition fold_line_body (n : N) : str :=
+    L_prevline ++ dec n ++ L_prev2 ++ (if 1 <? n then [115] else []) ++ [93].
+
+  Lemma dec_all_digits n : all_digits C (dec n) = true.
+  Proof.
+    unfold all_digits. pose proof (dec_digits n) as Hd. rewrite forallb_forall in *. intros x Hx.
+    specialize (Hd x Hx). apply andb_true_iff in Hd as [H1 H2]. apply N.leb_le in H1, H2.
+    apply (dg_ascii C OK). lia.
+  Qed.
+
+  Lemma repeat_re_line n : repeat_re C (fold_line_body n) = Some (dec n).
+  Proof.
+    unfold repeat_re, fold_line_body. change M_prevline with L_prevline. rewrite drop_prefix_app.
+    change (L_prev2 ++ (if 1 <? n then [115] else []) ++ [93])
+      with (32 :: ([109;111;114;101;32;116;105;109;101] ++ (if 1 <? n then [115] else []) ++ [93])).
+    rewrite (span_stop (is_dg C) (dec n) 32 _ (dec_all_digits n)) by (apply (dg_low C OK); lia).
+    pose proof (dec_nonnil n) as Hn. destruct (dec n) as [|d r] eqn:E; [contradiction|].
+    change (32 :: [109;111;114;101;32;116;105;109;101] ++ (if 1 <? n then [115] else []) ++ [93])
+      with (M_moretime ++ (if 1 <? n then [115] else []) ++ [93]).
+    rewrite drop_prefix_app. destruct (1 <? n); reflexivity.
+  Qed.
+
+  Lemma strip_repeat_line n : strip C (repeat_line n) = fold_line_body n.
+  Proof.
+    change (repeat_line n) with ([32; 32] ++ fold_line_body n).
+    unfold strip. rewrite lstrip_spaces by (cbn; rewrite (sp_32 C OK); reflexivity).
+    assert (E : fold_line_body n = (L_prevline ++ dec n ++ L_prev2 ++ (if 1 <? n then [115] else [])) ++ [93])
+      by (unfold fold_line_body; rewrite <- !app_assoc; reflexivity).
+    assert (L : lstrip C (fold_line_body n) = fold_line_body n).
+    { unfold fold_line_body, L_prevline. cbn [app]. apply lstrip_nonspace. apply (sp_print C OK). lia. }
+    rewrite L, E. apply rstrip_unit. apply (sp_print C OK). lia.
+  Qed.
+
+  Lemma frame_re_repeat_line n : frame_re C (strip C (repeat_line n)) = None.
+  Proof. rewrite strip_repeat_line. apply frame_re_not_file. reflexivity. Qed.
+
+  Lemma underline_repeat_line n : underline_re (repeat_line n) = false.
+  Proof.
+    unfold repeat_line, L_prev1. cbn [app].
+    exact (underline_false [32; 32] 91 _ eq_refl eq_refl eq_refl).
+  Qed.
+
+  Lemma no_break_repeat_line n : no_break C (repeat_line n) = true.
+  Proof.
+    unfold repeat_line. rewrite !no_break_app.
+    rewrite (no_break_ascii L_prev1), (no_break_ascii L_prev2), (no_break_digits (dec n) (dec_all_digits n)) by reflexivity.
+    destruct (1 <? n); cbn; rewrite ?(nbr_ascii 115), ?(nbr_ascii 93) by reflexivity; reflexivity.
+  Qed.
+
+  (* int(str(n)) = n *)
+  Definition int_step (a c : N) : N := a * 10 + dg_val C c.
+
+  Lemma int_fold_pos u : forall acc,
+    fold_left int_step (uint_codes u) (N.pos acc) = N.pos (Pos.of_uint_acc u acc).
+  Proof.
+    induction u; intro acc; cbn [uint_codes fold_left Pos.of_uint_acc]; try reflexivity;
+      unfold int_step at 2; rewrite (dg_val_ascii C OK) by lia;
+      match goal with |- fold_left _ _ ?x = N.pos (Pos.of_uint_acc _ ?y) =>
+        replace x with (N.pos y) by lia end; apply IHu.
+  Qed.
+
+  Lemma int_of_uint u : int_of C (uint_codes u) = N.of_uint u.
+  Proof.
+    unfold int_of. change (fun acc c : N => acc * 10 + dg_val C c) with int_step.
+    unfold N.of_uint. induction u; cbn [uint_codes fold_left Pos.of_uint]; try reflexivity;
+      unfold int_step at 2; rewrite (dg_val_ascii C OK) by lia; cbn [N.mul N.add N.sub Pos.sub Pos.pred_double Pos.sub_mask Pos.double_mask Pos.succ_double_mask Pos.double_pred_mask];
+      try exact IHu; apply int_fold_pos.
+  Qed.
+
+  Lemma int_of_dec n : int_of C (dec n) = n.
+  Proof. unfold dec. rewrite int_of_uint. apply DecimalN.Unsigned.of_to. Qed.
+
+  (* a line whose first word is a type name (no blank inside) followed by nothing or by a colon
+     does not start with a text that has a blank before any colon-free prefix is exhausted *)
+  Lemma no_prefix_line a b : forallb (fun c => negb (c =? 58)) a = true ->
+    forall ty l0, forallb (fun c => negb (c =? 32)) ty = true -> (l0 = [] \/ exists l', l0 = 58 :: l') ->
+    startswith (a ++ 32 :: b) (ty ++ l0) = false.
+  Proof.
+    induction a as [|c a IH]; intros Ha ty l0 Hty Hl; cbn [app startswith].
+    - destruct ty as [|x ty]; cbn [app].
+      + destruct Hl as [->|[l' ->]]; reflexivity.
+      + cbn [forallb] in Hty. apply andb_true_iff in Hty as [Hx _]. apply negb_true_iff in Hx.
+        rewrite N.eqb_sym, Hx. reflexivity.
+    - cbn [forallb] in Ha. apply andb_true_iff in Ha as [Hc Ha]. apply negb_true_iff in Hc.
+      destruct ty as [|x ty]; cbn [app].
+      + destruct Hl as [->|[l' ->]]; [reflexivity|]. rewrite Hc. reflexivity.
+      + cbn [forallb] in Hty. apply andb_true_iff in Hty as [_ Hty].
+        rewrite (IH Ha ty l0 Hty Hl). apply andb_false_r.
   Qed.
 
   Lemma strip_header : strip C L_header = L_header.
